@@ -394,6 +394,10 @@ func genCronHistory(r *rng.R, length int, badMeta bool) sim.History {
 					add = append(add, n)
 				}
 			}
+			if len(add) > 0 && r.Chance(1, 5) {
+				// the SAME Entry object offered twice in one edit (rejected: it overlaps itself; nothing may be lost)
+				add = append(add, add[r.Intn(len(add))])
+			}
 			h.Ops = append(h.Ops, "edit "+joinNames(add)+" "+joinNames(rem))
 			// the generator does not know whether the edit is accepted; the driver tracks `stored` from the result.
 			// For generation purposes assume acceptance only when no obvious duplicate is offered.
